@@ -15,6 +15,8 @@
      nested    a resource owning two inner resources: all three destruction events are delivered
      attach    an attachment with a destruction event whose defaults read `base.f`, destroyed with its base
      array     destroying an array of two resources
+     refs      emit statement whose arguments are references: the same reference value in several fields and
+               container elements of one event, and separately created references to the same target
    The order in which the events of ONE destroy statement reach the host is not fixed by the property;
    the model emits pending events in any order and the conformance check compares bags.
 
@@ -30,7 +32,7 @@ TSx == Comp("Struct", Q("S"), <<Fld("a", P("Int"))>>, <<>>, <<>>)
 \* [ty: source of declared type, tyid: its type ID, expr: argument source, val: expected value, dyn: dynamic type ID,
 \*  pure: usable in a condition (view context), prim: allowed as a parameter of a default destruction event]
 FS(ty, tyid, expr, val, dyn, pure, prim) == [ty |-> ty, tyid |-> tyid, expr |-> expr, val |-> val, dyn |-> dyn, pure |-> pure, prim |-> prim]
-Specs == <<
+PlainSpecs == <<
   FS("Int", "Int", "42", Num("Int", "42"), "Int", TRUE, TRUE),
   FS("Int", "Int", "-170141183460469231731687303715884105729", Num("Int", "-170141183460469231731687303715884105729"), "Int", TRUE, TRUE),
   FS("String", "String", "\"hi\"", Str("hi"), "String", TRUE, TRUE),
@@ -55,10 +57,31 @@ Specs == <<
   FS("Integer", "Integer", "5 as UInt16", Num("UInt16", "5"), "UInt16", TRUE, FALSE),
   FS("{Int: [String]}", "{Int:[String]}", "{1: [\"a\"]}", Dict(DictT(P("Int"), VArr(P("String"))), <<KV(Num("Int", "1"), Arr(VArr(P("String")), <<Str("a")>>))>>), "{Int:[String]}", TRUE, FALSE)
 >>
+\* Reference-typed parameters (site "refs"). The emitting function first binds  let s = S(a: 2)  let r = &s as &S
+\* let r2 = &s as &S ; a reference is delivered as the value it refers to. `r` is ONE reference value used in several
+\* fields / elements of the same event, `r2` a separately created reference to the same target: every occurrence
+\* must be present in the payload.
+RS == CompV(TSx, <<Num("Int", "2")>>)
+RefTid == "&" \o Q("S")
+RefArrT == VArr(RefT(Unauth, TSx))
+RefSpecs == <<
+  FS("&S", RefTid, "r", RS, Q("S"), FALSE, FALSE),
+  FS("&S", RefTid, "r2", RS, Q("S"), FALSE, FALSE),
+  FS("[&S]", "[" \o RefTid \o "]", "[r, r]", Arr(RefArrT, <<RS, RS>>), "[" \o RefTid \o "]", FALSE, FALSE),
+  FS("[&S]", "[" \o RefTid \o "]", "[r, r2, r]", Arr(RefArrT, <<RS, RS, RS>>), "[" \o RefTid \o "]", FALSE, FALSE),
+  FS("{String: &S}", "{String:" \o RefTid \o "}", "{\"k\": r, \"j\": r}",
+     Dict(DictT(P("String"), RefT(Unauth, TSx)), <<KV(Str("k"), RS), KV(Str("j"), RS)>>), "{String:" \o RefTid \o "}", FALSE, FALSE),
+  FS("&S?", "(" \o RefTid \o ")?", "r", Some(RS), "(" \o Q("S") \o ")?", FALSE, FALSE),
+  FS("&S?", "(" \o RefTid \o ")?", "nil", NilV, "(Never)?", FALSE, FALSE),
+  FS("[&S?]", "[(" \o RefTid \o ")?]", "[r, nil, r]", Arr(VArr(OptT(RefT(Unauth, TSx))), <<Some(RS), NilV, Some(RS)>>), "[(" \o RefTid \o ")?]", FALSE, FALSE)
+>>
+Specs == PlainSpecs \o RefSpecs
+NPlain == Len(PlainSpecs)
+IsRefSpec(i) == i > NPlain
 NSpecs == Len(Specs)
 FieldNames == <<"zz", "a", "m">>       \* declaration order is not alphabetical
 
-Sites == {"stmt", "script", "pre", "post", "ifacepre", "destroy", "nested", "attach", "array"}
+Sites == {"stmt", "script", "pre", "post", "ifacepre", "destroy", "nested", "attach", "array", "refs"}
 CondSites == {"pre", "post", "ifacepre"}
 DestroySites == {"destroy", "nested", "attach", "array"}
 ArgKinds == {"lit", "field", "deep"}
@@ -74,6 +97,7 @@ OkConfig(c) ==
        /\ (c.site \in DestroySites => Specs[c.fields[i]].prim /\ c.kinds[i] \in ArgKinds)
        /\ (c.site = "attach" => c.kinds[i] # "deep")    \* `base.s.v` is not an admissible default argument
        /\ (c.site \notin DestroySites => c.kinds[i] = "lit")
+       /\ (IsRefSpec(c.fields[i]) => c.site = "refs")
 
 EventTid(c) ==
   CASE c.site = "script" -> "$LOC.Ev"
